@@ -133,6 +133,31 @@ def evidence_not_in(p, K, k_ins, node, q, fn, m):
                 best = ("list_remove(&kernel.%s, n)" % q, k)
         if k < k_ins and e.callee == "list_extract" and K.queue_arg(e.args[0]) == q and e.res == node:
             best = ("n = list_extract(&kernel.%s)" % q, k)
+    # list.c's shape invariant: the last node of a list is list->tail and only the last node has a NULL next, so a node whose
+    # next is NULL and which is not the queue's tail is not on the queue
+    try:
+        tid = m.di_by_name.get("list_t")
+        nid = m.di_by_name.get("list_node_t") or m.di_by_name.get("list_node")
+        tail_o = {p_: o for p_, o, s_, t_ in m.di_leaves(tid)}["tail"]
+        next_o = {p_: o for p_, o, s_, t_ in m.di_leaves(nid)}["next"]
+    except Exception:
+        tail_o = next_o = None
+    if tail_o is not None:
+        next_null = not_tail = None
+        for (c, taken, inst), pos in zip(p.conds, p.cond_pos):
+            cc = strip_casts(c)
+            if pos > k_ins or cc[0] != "icmp" or cc[1] not in ("eq", "ne"):
+                continue
+            a, b = strip_casts(cc[2]), strip_casts(cc[3])
+            for x, y in ((a, b), (b, a)):
+                if x[0] == "ld" and y == ("null",) and ptr_parts(x[1]) == ptr_parts(paths.mkptr(node, next_o)) and (cc[1] == "eq") == bool(taken):
+                    next_null = pos
+                if x[0] == "ld" and K.member_of(x[1]) and K.member_of(x[1]) == (q, tail_o) and y == strip_casts(node) and (cc[1] == "ne") == bool(taken):
+                    not_tail = pos
+        if next_null is not None and not_tail is not None and (best is None or max(next_null, not_tail) > best[1]):
+            muts = [k for k, e in fib.calls_on(p) if min(next_null, not_tail) <= k < k_ins and fib.callee_name(e) in MAY_INSERT]
+            if not muts:
+                best = ("n->next == NULL and n is not kernel.%s's tail (only the tail of a list has a NULL next)" % q, max(next_null, not_tail))
     # an empty queue holds nobody
     fact = fib.queue_empty_facts(p, K).get(q)
     if fact is not None and fact[0] is True and fact[1] < k_ins and (best is None or fact[1] > best[1]):
